@@ -141,6 +141,7 @@ def generate(prop, rng):
                 cache_odb=rng.choice([None, "A", "B"]),
                 used_as_iter=rng.random() < 0.4,
                 used_strip_dir=rng.random() < 0.25,
+                dry_first=rng.random() < 0.2,
             )
             if prop == "C06" and rng.random() < 0.2:
                 # the n-th removal fails (object owned by somebody else in a shared cache / I/O error)
@@ -256,6 +257,7 @@ class Hist:
         self.n_adding_ops = {}
         self.co_n = 0
         self.bad_seen = set()
+        self.ext_added = set()
 
     def st(self):
         if self.state is None:
@@ -663,8 +665,15 @@ def op_gc(h, op, n):
     s = op["store"]
     algo = STORES[s]["hash"]
     odb = h.odb(s)
+    if op.get("dry_first") and not op.get("dry") and not op.get("read_only"):
+        # "show, confirm, collect": a dry run with the very same used set on the same handle, then
+        # another client adds objects, then the real run
+        op_gc(h, dict(op, dry=True, dry_first=False, rm_fault=None), n)
+        op_ext_add(h, {"store": s, "n": 1 + n % 3, "tag": 7000 + n}, n)
+        ctx.probe("store_changed_between_dry_run_and_real_run")
     objs0, _ = h.listing(s)
     S = set(odb.all())
+    Spick = sorted(S - h.ext_added) or sorted(S)
     used = []
     U = set()
     expand_src = h.odb(op["cache_odb"]) if op.get("cache_odb") else None
@@ -689,10 +698,10 @@ def op_gc(h, op, n):
         U.add(o)
     if op.get("used_other_algo") and S:
         # an id that IS in the store but carries another algorithm's name: not "used"
-        o = sorted(S)[int(op["used_present_pick"] * len(S)) % len(S)]
+        o = Spick[int(op["used_present_pick"] * len(Spick)) % len(Spick)]
         used.append(_hi(o, "sha256" if algo == "md5" else "md5"))
     elif S and op["used_present_pick"] < 0.5:
-        o = sorted(S)[int(op["used_present_pick"] * 2 * len(S)) % len(S)]
+        o = Spick[int(op["used_present_pick"] * 2 * len(Spick)) % len(Spick)]
         used.append(_hi(o, algo))
         U.add(o)
         if o.endswith(".dir") and not op["shallow"]:
@@ -884,6 +893,7 @@ def op_ext_add(h, op, n):
     for k in range(op["n"]):
         data = b"added-by-another-client-%d-%d\n" % (op["tag"], k)
         h.w.raw_add(h.dirname(s), STORES[s]["kind"], model.ref_digest(algo, data), data)
+        h.ext_added.add(model.ref_digest(algo, data))
     h.ctx.probe("objects_added_by_another_client")
     return None
 
